@@ -3,6 +3,8 @@ package main
 // entrygen.go (-> Gen/EntryMetrics.v), read from the AST:
 //  1. SshdProcessorer.ProcessSshdLogEntry (processors/sshd/sshdprocessor.go): where each field of the
 //     per-line config comes from, and that the result of ProcessEntry(&config) is returned;
+//     1b. the fields of struct SshdProcessorer, the constructor NewSshdProcessor (a single return of
+//     &SshdProcessorer{field: parameter, ...}) and which types of the package implement ProcessSshdLogEntry;
 //  2. internal/metrics: what IncLogins does to which counter with which label values in which order,
 //     the definition of that counter (name, namespace, label names, registered?), and the string values
 //     of the LoginType / OutcomeType constants.
@@ -290,6 +292,127 @@ func egEntrySketch(repo string) (*egEntry, error) {
 		return en, nil
 	}
 	return nil, egUnsupported("ProcessSshdLogEntry: body form not understood")
+}
+
+// ---------------------------------------------------------------------------------------------
+// 1b. the long-lived processor: its fields, its constructor, and who else implements the entry point
+
+type egCtor struct {
+	fields  []string    // fields of struct SshdProcessorer, in source order
+	inits   [][2]string // constructor: (field, parameter it is initialised from)
+	impls   []string    // receiver types of package sshd with a method ProcessSshdLogEntry (non-test files), sorted
+	retType string
+}
+
+func egConstructorSketch(repo string) (*egCtor, error) {
+	dir := filepath.Join(repo, "processors/sshd")
+	g, err := egParse(filepath.Join(dir, "sshdprocessor.go"))
+	if err != nil {
+		return nil, err
+	}
+	ct := &egCtor{}
+	// struct SshdProcessorer
+	var st *ast.StructType
+	for _, d := range g.f.Decls {
+		gd, ok := d.(*ast.GenDecl)
+		if !ok || gd.Tok != token.TYPE {
+			continue
+		}
+		for _, sp := range gd.Specs {
+			ts := sp.(*ast.TypeSpec)
+			if ts.Name.Name != "SshdProcessorer" {
+				continue
+			}
+			s, ok := ts.Type.(*ast.StructType)
+			if !ok || st != nil || ts.TypeParams != nil {
+				return nil, g.unsup(ts, "SshdProcessorer is not one plain struct type")
+			}
+			st = s
+		}
+	}
+	if st == nil {
+		return nil, egUnsupported("type SshdProcessorer struct not found in sshdprocessor.go")
+	}
+	for _, f := range st.Fields.List {
+		if len(f.Names) == 0 {
+			return nil, g.unsup(f, "embedded field in SshdProcessorer")
+		}
+		for _, n := range f.Names {
+			ct.fields = append(ct.fields, n.Name)
+		}
+	}
+	// func NewSshdProcessor(params...) SshdProcessor { return &SshdProcessorer{field: param, ...} }
+	var fd *ast.FuncDecl
+	for _, d := range g.f.Decls {
+		if f, ok := d.(*ast.FuncDecl); ok && f.Recv == nil && f.Name.Name == "NewSshdProcessor" {
+			if fd != nil {
+				return nil, egUnsupported("two functions NewSshdProcessor")
+			}
+			fd = f
+		}
+	}
+	if fd == nil || fd.Body == nil {
+		return nil, egUnsupported("func NewSshdProcessor not found in sshdprocessor.go")
+	}
+	if fd.Type.Results == nil || len(fd.Type.Results.List) != 1 || len(fd.Type.Results.List[0].Names) != 0 {
+		return nil, egUnsupported("NewSshdProcessor does not return exactly one unnamed value")
+	}
+	ct.retType = egTypeString(fd.Type.Results.List[0].Type)
+	params, _ := egParamNames(fd)
+	isParam := map[string]bool{}
+	for _, p := range params {
+		isParam[p] = true
+	}
+	if len(fd.Body.List) != 1 {
+		return nil, egUnsupported("NewSshdProcessor: body is not a single return statement")
+	}
+	r, ok := fd.Body.List[0].(*ast.ReturnStmt)
+	if !ok || len(r.Results) != 1 {
+		return nil, g.unsup(fd.Body.List[0], "NewSshdProcessor: body is not a single return of one value")
+	}
+	u, ok := r.Results[0].(*ast.UnaryExpr)
+	if !ok || u.Op != token.AND {
+		return nil, g.unsup(r.Results[0], "NewSshdProcessor does not return the address of a composite literal")
+	}
+	cl, ok := u.X.(*ast.CompositeLit)
+	if !ok || egTypeString(cl.Type) != "SshdProcessorer" {
+		return nil, g.unsup(u.X, "NewSshdProcessor does not return &SshdProcessorer{...}")
+	}
+	seen := map[string]bool{}
+	for _, el := range cl.Elts {
+		kv, ok := el.(*ast.KeyValueExpr)
+		if !ok {
+			return nil, g.unsup(el, "positional field")
+		}
+		k, ok := kv.Key.(*ast.Ident)
+		if !ok || seen[k.Name] {
+			return nil, g.unsup(el, "field key")
+		}
+		seen[k.Name] = true
+		v, ok := kv.Value.(*ast.Ident)
+		if !ok || !isParam[v.Name] {
+			return nil, g.unsup(kv.Value, "constructor field is not initialised from a parameter")
+		}
+		ct.inits = append(ct.inits, [2]string{k.Name, v.Name})
+	}
+	// every method named ProcessSshdLogEntry of the package (non-test files)
+	pkgs, err := parser.ParseDir(token.NewFileSet(), dir, func(fi os.FileInfo) bool { return !strings.HasSuffix(fi.Name(), "_test.go") }, 0)
+	if err != nil {
+		return nil, err
+	}
+	for _, pkg := range pkgs {
+		for _, f := range pkg.Files {
+			for _, d := range f.Decls {
+				m, ok := d.(*ast.FuncDecl)
+				if !ok || m.Recv == nil || m.Name.Name != "ProcessSshdLogEntry" || len(m.Recv.List) != 1 {
+					continue
+				}
+				ct.impls = append(ct.impls, strings.TrimPrefix(egTypeString(m.Recv.List[0].Type), "*"))
+			}
+		}
+	}
+	sort.Strings(ct.impls)
+	return ct, nil
 }
 
 // ---------------------------------------------------------------------------------------------
@@ -590,6 +713,14 @@ Record entry_sketch := {
   en_result_returned : bool             (* true: "return callee(&config)"; false: the result is dropped and nil returned *)
 }.
 
+(* ---- 1b. the long-lived processor ---- *)
+Record ctor_sketch := {
+  ct_fields : list string;             (* the fields of struct SshdProcessorer, in source order *)
+  ct_inits : list (string * string);   (* NewSshdProcessor is the single statement "return &SshdProcessorer{field: parameter, ...}": (field, parameter) *)
+  ct_result : string;                  (* its result type *)
+  ct_entry_impls : list string         (* the types of package sshd that have a method ProcessSshdLogEntry *)
+}.
+
 (* ---- 2. metrics ---- *)
 Inductive eg_arg := ArgParam (i : nat)       (* string(<i-th parameter>) *)
                   | ArgOther (text : string).
@@ -630,6 +761,17 @@ func egGen(repo, out string) error {
 		}
 		fmt.Fprintf(&sb, "Definition gen_entry : entry_sketch := {|\n  en_config := [%s];\n  en_callee := %s;\n  en_result_returned := %s\n|}.\n\n",
 			strings.Join(fs, ";\n                ")+"", egStr(en.callee), egBool(en.returned))
+	}
+
+	if ct, err := egConstructorSketch(repo); err != nil {
+		fmt.Fprintf(&sb, "(* UNSUPPORTED: %s *)\nDefinition gen_constructor : ctor_sketch := UNSUPPORTED_eg_constructor.\n\n", egComment(err.Error()))
+	} else {
+		var is []string
+		for _, kv := range ct.inits {
+			is = append(is, fmt.Sprintf("(%s, %s)", egStr(kv[0]), egStr(kv[1])))
+		}
+		fmt.Fprintf(&sb, "Definition gen_constructor : ctor_sketch := {|\n  ct_fields := %s;\n  ct_inits := [%s];\n  ct_result := %s;\n  ct_entry_impls := %s\n|}.\n\n",
+			egStrList(ct.fields), strings.Join(is, "; "), egStr(ct.retType), egStrList(ct.impls))
 	}
 
 	mdir := filepath.Join(repo, "internal/metrics")
